@@ -299,6 +299,11 @@ pub fn alpha(fields: &[&str]) -> String
 			}
 		}
 	}
+	if mode == "irs"
+	{
+		let parts: Vec<String> = o.module_irs.iter().map(|ir| format!("h:{}", hex(ir.as_bytes()))).collect();
+		s.push_str(&format!(" mods={}", parts.join(";")));
+	}
 	if want_ir
 	{
 		if let Some(ir) = &o.linked_ir
